@@ -5,6 +5,7 @@ import (
 	"fmt"
 	"io"
 	"net"
+	"os"
 	"sync"
 	"time"
 )
@@ -24,12 +25,19 @@ func (timeoutErr) Temporary() bool { return true }
 
 var ErrScriptReset = errors.New("connection reset by peer (scripted)")
 
+// deadlineErr is what a real connection (a socket, net.Pipe) returns when a deadline passes: a *net.OpError that
+// wraps os.ErrDeadlineExceeded (Timeout() == true). Code that looks at the error's type sees what it would see in
+// production.
+func deadlineErr(op string) error {
+	return &net.OpError{Op: op, Net: "script", Source: addr("server"), Addr: addr("client"), Err: os.ErrDeadlineExceeded}
+}
+
 func termErr(t string) error {
 	switch t {
 	case TermTimeout:
-		return timeoutErr{}
+		return deadlineErr("read")
 	case TermReset:
-		return ErrScriptReset
+		return &net.OpError{Op: "read", Net: "script", Source: addr("server"), Addr: addr("client"), Err: ErrScriptReset}
 	}
 	return io.EOF
 }
@@ -72,6 +80,10 @@ type ScriptConn struct {
 	readDL, writeDL  time.Time
 	DeadlineAnomaly  string
 	TimedOutReads    int // Reads that returned a timeout because the armed deadline passed during a pause
+	TimedOutWrites   int // Writes refused because the armed write deadline had passed
+	// FinalWithErr: the last octets of the script are returned TOGETHER with the terminal answer (n > 0 and err != nil
+	// from one Read), as crypto/tls does when a close_notify record is waiting behind application data
+	FinalWithErr bool
 	// LongPauseBefore (1-based segment number, 0: none): the peer stays silent for LongPause before that segment - once;
 	// if that outlasts the armed read deadline the Read times out and the segment arrives with the next Read
 	LongPauseBefore int
@@ -98,7 +110,7 @@ func (c *ScriptConn) Read(b []byte) (int, error) {
 		// whether or not data has arrived meanwhile
 		c.TimedOutReads++
 		c.mu.Unlock()
-		return 0, timeoutErr{}
+		return 0, deadlineErr("read")
 	}
 	for c.idx < len(c.segs) && c.off >= len(c.segs[c.idx]) {
 		c.idx++
@@ -133,7 +145,7 @@ func (c *ScriptConn) Read(b []byte) (int, error) {
 				c.pausedAt = c.idx + 1 // the one long pause is over: the segment is there for the next Read
 			}
 			c.mu.Unlock()
-			return 0, timeoutErr{}
+			return 0, deadlineErr("read")
 		}
 		time.Sleep(pause)
 		c.mu.Lock()
@@ -144,6 +156,16 @@ func (c *ScriptConn) Read(b []byte) (int, error) {
 	n := copy(b, c.segs[c.idx][c.off:])
 	c.off += n
 	c.Consumed += n
+	if c.FinalWithErr && c.idx == len(c.segs)-1 && c.off >= len(c.segs[c.idx]) {
+		first := !c.exhausted
+		c.exhausted = true
+		term, cb := c.term, c.OnExhausted
+		c.mu.Unlock()
+		if first && cb != nil {
+			cb()
+		}
+		return n, term
+	}
 	c.mu.Unlock()
 	return n, nil
 }
@@ -156,6 +178,11 @@ func (c *ScriptConn) Write(b []byte) (int, error) {
 	}
 	if c.Closed {
 		return 0, net.ErrClosed
+	}
+	if !c.RequireDeadlines && !c.writeDL.IsZero() && !time.Now().Before(c.writeDL) {
+		// the armed write deadline has passed (virtual clock): the Write fails, as on a real connection
+		c.TimedOutWrites++
+		return 0, deadlineErr("write")
 	}
 	c.Writes = append(c.Writes, WriteRec{Consumed: c.Consumed, Data: append([]byte(nil), b...)})
 	return len(b), nil
